@@ -2,8 +2,9 @@
 Model/TvfsPath — TVFS manifest: `TvfsBuilder::build` (sort by path, `build_path_tree` /
 `insert_path`, `PathTable::build` = `build_directory`/`build_entry`, one VFS entry + one CFT entry
 per file addressed by byte offset) → `TvfsFile::parse` (`PathTable::parse` = `parse_directory`) →
-`TvfsFile::resolve_path`. The path table is modelled byte for byte; VFS/CFT tables by their offset
-arithmetic. Bytes are naturals < 256.
+`TvfsFile::resolve_path`. The path table is modelled byte for byte here; the VFS / container / EST
+tables, the builder's width computation and `resolve_path` are in Model/TvfsTables (byte for byte as
+well). Bytes are naturals < 256.
 -/
 namespace Cascette.Model.TvfsPath
 
@@ -139,6 +140,7 @@ structure FileRec where
   esize : Nat
   csize : Nat
   ckey : Option Bytes
+  est : Option Nat := none   -- EST index of `add_file_with_est`
 deriving Repr
 
 def lexLe : Bytes → Bytes → Bool
@@ -147,36 +149,5 @@ def lexLe : Bytes → Bytes → Bool
   | a :: as, b :: bs => if a < b then true else if b < a then false else lexLe as bs
 
 def offsSize (n : Nat) : Nat := if n > 0xFFFFFF then 4 else if n > 0xFFFF then 3 else if n > 0xFF then 2 else 1
-
-structure Built where
-  files : List (Bytes × Nat)               -- parsed path table
-  vfs : List (Nat × Nat)                   -- (entry offset, cft offset)
-  cft : List (Nat × FileRec)               -- (entry offset, record as stored)
-deriving Repr
-
-/-- `TvfsBuilder::build` then `TvfsFile::parse` for flags 0 or `INCLUDE_CKEY` (1). -/
-def buildParse (flags : Nat) (input : List FileRec) : Except PErr Built :=
-  let files := input.mergeSort (fun a b => lexLe a.path b.path)
-  let withCkey := flags &&& 1 != 0
-  let entrySize := 9 + 4 + (if withCkey then 9 else 0)
-  let cftSize := files.length * entrySize
-  let spanWire := 1 + 4 + 4 + offsSize cftSize
-  let root := files.zipIdx.foldl (fun r (f, i) => insertPath (splitPath f.path) (i * spanWire) r) (.mk [] [] none)
-  match parseTable (buildDir root.children) with
-  | .error e => .error e
-  | .ok fl =>
-    .ok { files := fl
-          vfs := files.zipIdx.map fun (_, i) => (i * spanWire, i * entrySize)
-          cft := files.zipIdx.map fun (f, i) =>
-            (i * entrySize, { f with ckey := if withCkey then some (((f.ckey.getD []).take 9) ++ List.replicate (9 - (f.ckey.getD []).length) 0) else none }) }
-
-/-- `TvfsFile::resolve_path` -/
-def Built.resolve (b : Built) (path : Bytes) : Option FileRec :=
-  match b.files.find? (fun f => f.1 == path) with
-  | none => none
-  | some (_, off) =>
-    match b.vfs.find? (fun e => e.1 == off) with
-    | none => none
-    | some (_, cftOff) => (b.cft.find? (fun e => e.1 == cftOff)).map (·.2)
 
 end Cascette.Model.TvfsPath
